@@ -71,7 +71,7 @@ Section Variant.
       rewrite IH by assumption. destruct (unescape f r); reflexivity.
   Qed.
 
-  Definition normf (f : nat) (s : list N) : list N := if normalize then sanitize f s else firstn f s.
+  Definition normf (f : nat) (s : list N) : list N := if normalize then sanitize f s else s.
 
   (* normalising tables flag every non-ASCII byte *)
   Definition norm_table_ok : bool :=
@@ -160,14 +160,40 @@ Section Variant.
     (split; [repeat f_equal; lia|reflexivity]).
   Qed.
 
-  Theorem unescape_slow f : forall s F, ok s -> (length (slow need html normalize f s) < F)%nat ->
+  Lemma sep3_shape s y : ok s -> sep3 s = Some y -> exists t, s = 226 :: 128 :: y :: t /\ (y = 168 \/ y = 169).
+  Proof.
+    intros Hs H. unfold sep3 in H.
+    destruct s as [|a [|b [|y' t]]]; try discriminate.
+    1,2: repeat match type of H with (match ?x with _ => _ end) = _ => destruct x; try discriminate end.
+    destruct (N.eqb_spec a 226) as [Ea|Ea].
+    2:{ exfalso. revert H. clear -Ea. destruct a as [|p]; [discriminate|].
+        repeat (destruct p as [p|p|]; try discriminate); congruence. }
+    subst a. destruct (N.eqb_spec b 128) as [Eb|Eb].
+    2:{ exfalso. revert H. clear -Eb. destruct b as [|p]; [discriminate|].
+        repeat (destruct p as [p|p|]; try discriminate); congruence. }
+    subst b. cbn iota beta in H. destruct (N.land y' 254 =? 168) eqn:E; [|discriminate]. inversion H; subst y'.
+    exists t. split; [reflexivity|].
+    inversion Hs as [|? ? _ Hs1]; subst. inversion Hs1 as [|? ? _ Hs2]; subst. inversion Hs2 as [|? ? Hy _]; subst.
+    pose (P := fun y => negb (N.land y 254 =? 168) || (y =? 168) || (y =? 169)).
+    assert (HP : forallb P all_bytes = true) by (vm_compute; reflexivity).
+    pose proof (forall_bytes P HP y Hy) as Q. unfold P in Q. lia.
+  Qed.
+
+  Lemma unescape_u202 F y r : (y = 168 \/ y = 169) ->
+    unescape (S F) ([92; 117; 50; 48; 50; hexdig (N.land y 15)] ++ r) =
+    match unescape F r with Some o => Some ([226; 128; y] ++ o) | None => None end.
+  Proof. intros [-> | ->]; [apply unescape_u2028|apply unescape_u2029]. Qed.
+
+  Theorem unescape_slow f : forall s F, ok s -> (length s <= f)%nat -> (length (slow need html normalize f s) < F)%nat ->
     unescape F (slow need html normalize f s) = Some (normf f s).
   Proof.
-    induction f as [|f IH]; intros s F Hs HF.
-    - destruct F; [cbn in HF; lia|]. unfold normf. destruct normalize; reflexivity.
+    induction f as [|f IH]; intros s F Hs Lf HF.
+    - destruct s; [|cbn in Lf; lia]. destruct F; [cbn in HF; lia|]. unfold normf. destruct normalize; reflexivity.
     - destruct s as [|c r].
       { destruct F; [cbn in HF; lia|]. unfold normf. destruct normalize; reflexivity. }
-      inversion Hs as [|? ? Hc Hr]; subst. cbn [slow] in *.
+      inversion Hs as [|? ? Hc Hr]; subst. cbn [length] in Lf. cbn [slow] in *.
+      assert (Lk : forall k, (1 <= k)%nat -> (length (skipn k (c :: r)) <= f)%nat).
+      { intros k Hk. rewrite skipn_length. cbn [length]. lia. }
       destruct (tblb need c) eqn:T; cbn [negb] in *.
       2:{ (* unflagged byte, copied *)
         destruct F as [|F]; [cbn in HF; lia|]. cbn [length] in HF.
@@ -188,8 +214,14 @@ Section Variant.
         cbn [sanitize]. destruct (N.ltb_spec c 128); [reflexivity|lia]. }
       pose proof (flagged_noesc need html Htable c Hc T Ee) as Hhigh.
       destruct normalize eqn:En.
-      2:{ destruct F as [|F]; [cbn in HF; lia|]. cbn [length] in HF.
-          rewrite unescape_raw by lia. rewrite (IH r F Hr) by lia. unfold normf. rewrite En. reflexivity. }
+      2:{ rewrite if_match_sep in *. destruct (if html then sep3 (c :: r) else None) as [y|] eqn:Es.
+          - assert (Es' : sep3 (c :: r) = Some y) by (destruct html; [exact Es|discriminate]).
+            destruct (sep3_shape (c :: r) y Hs Es') as (t & Est & Hy).
+            destruct F as [|F]; [cbn in HF; lia|]. rewrite app_length in HF. cbn [length] in HF.
+            rewrite (unescape_u202 F y _ Hy). rewrite (IH _ F (ok_skipn _ _ Hs)) by (try apply Lk; lia).
+            unfold normf. rewrite En. rewrite Est. reflexivity.
+          - destruct F as [|F]; [cbn in HF; lia|]. cbn [length] in HF.
+            rewrite unescape_raw by lia. rewrite (IH r F Hr) by lia. unfold normf. rewrite En. reflexivity. }
       unfold normf. rewrite En. cbn [sanitize]. destruct (N.ltb_spec c 128); [lia|].
       destruct (decode_rune (c :: r)) as [st size] eqn:D.
       pose proof (rune_size _ _ _ D) as Sz.
@@ -198,17 +230,16 @@ Section Variant.
       + (* valid multi-byte: copied raw *)
         pose proof (decode_rune_valid_high need html (c :: r) size Hs ltac:(cbn; lia) D) as Raw.
         rewrite app_length in HF.
-        assert (Lp : length (firstn (N.to_nat size) (c :: r)) = N.to_nat size \/ True) by (right; exact I).
         replace F with (length (firstn (N.to_nat size) (c :: r)) + (F - length (firstn (N.to_nat size) (c :: r))))%nat by lia.
         rewrite unescape_raws by (apply raws_not_bs; exact Raw).
-        rewrite (IH _ _ (ok_skipn _ _ Hs)) by lia. unfold normf. rewrite En. reflexivity.
+        rewrite (IH _ _ (ok_skipn _ _ Hs)) by (try apply Lk; lia). unfold normf. rewrite En. reflexivity.
       + destruct F as [|F]; [cbn in HF; lia|]. rewrite app_length in HF. cbn [length] in HF.
         rewrite unescape_ufffd. rewrite (IH r F Hr) by lia. unfold normf. rewrite En. reflexivity.
       + destruct F as [|F]; [cbn in HF; lia|]. rewrite app_length in HF. cbn [length] in HF.
-        rewrite unescape_u2028. rewrite (IH _ F (ok_skipn _ _ Hs)) by lia. unfold normf. rewrite En.
+        rewrite unescape_u2028. rewrite (IH _ F (ok_skipn _ _ Hs)) by (try apply Lk; lia). unfold normf. rewrite En.
         destruct (SL eq_refl) as [E3 Es]. subst size. change (N.to_nat 3) with 3%nat. rewrite E3. reflexivity.
       + destruct F as [|F]; [cbn in HF; lia|]. rewrite app_length in HF. cbn [length] in HF.
-        rewrite unescape_u2029. rewrite (IH _ F (ok_skipn _ _ Hs)) by lia. unfold normf. rewrite En.
+        rewrite unescape_u2029. rewrite (IH _ F (ok_skipn _ _ Hs)) by (try apply Lk; lia). unfold normf. rewrite En.
         destruct (SP eq_refl) as [E3 Es]. subst size. change (N.to_nat 3) with 3%nat. rewrite E3. reflexivity.
   Qed.
 End Variant.
@@ -314,7 +345,7 @@ Section RoundTrip.
                 ltac:(rewrite app_length; cbn; lia)) as (esc' & E1 & E2).
     cbn [app] in E1. rewrite E1.
     assert (Hu : forall F', (length body < F')%nat -> unescape F' body = Some (normf normalize (length s) s)).
-    { intros F' L. apply (unescape_slow need html normalize Htable Hnorm); assumption. }
+    { intros F' L. apply (unescape_slow need html normalize Htable Hnorm); [assumption|apply le_n|assumption]. }
     rewrite (unquote_whole body esc' (normf normalize (length s) s) (S (length body)));
       [|destruct E2 as [E2|[_ E2]]; [left; exact E2|right; exact E2]|lia|exact Hu].
     reflexivity.
